@@ -503,7 +503,7 @@ func (v *Verifier) verifyFunc(fn *ssa.Function, fc *FuncContract, em *Emitter, g
 			}
 		}
 		for _, ss := range fc.Stores {
-			if !fx.usedCallSites[ss] {
+			if !fx.usedCallSites[ss] && ss.Ordinal != -1 {
 				fx.clauseFaults = append(fx.clauseFaults, fmt.Sprintf("contract of %s: store site %s#%d not found", fx.relName(), ss.Callee, ss.Ordinal))
 			}
 		}
